@@ -308,8 +308,8 @@ def pair_distribute(ctx, rule: str) -> None:
     else:
         ok_idx = False
         # min()/max() of the position list is an equivalent spelling
-        if isinstance(ds, ast.Call) and isinstance(de, ast.Call) and call_fname(ds) == "min" and call_fname(de) == "max" and ds.args and de.args and key(ds.args[0]) == key(de.args[0]):
-            D = ds.args[0]
+        if isinstance(ds, ast.Call) and isinstance(de, ast.Call) and call_fname(ds) == "min" and call_fname(de) == "max" and ds.args and de.args and _akey(ds.args[0]) == _akey(de.args[0]):
+            D = _beta(ds.args[0])
             ok_idx = True
     if D is None:
         ctx.rep.inconclusive(rule, f"{cbase}/range", f"destination range `{show(ds)[:50]}`..`{show(de)[:50]}` is not first/last of one position list", where=w)
@@ -323,7 +323,8 @@ def pair_distribute(ctx, rule: str) -> None:
         elt, gen = inner.args[1], inner.args[2]
         if is_sym(gen, "gen") and len(gen.args) == 1 and isinstance(elt, ast.Call) and isinstance(elt.func, ast.Attribute) and elt.func.attr == "_get_well_position" and len(elt.args) == 2:
             we = elem_parts(elt.args[1])
-            pos_ok = is_name(elt.args[0], "destination") and we is not None and same_seq(we[1], aw) and same_seq(gen.args[0], aw)
+            # for first/last a de-duplicated or re-ordered copy of the wells is as good as the wells themselves
+            pos_ok = is_name(elt.args[0], "destination") and we is not None and same_seq(_peel(we[1])[0], aw) and same_seq(_peel(gen.args[0])[0], aw)
         elif is_sym(gen, "gen") and len(gen.args) > 1:
             dedup.append("if-filter")
     elif is_sym(inner, "mut") and isinstance(inner.args[0], ast.Constant):
@@ -351,8 +352,29 @@ def pair_distribute(ctx, rule: str) -> None:
         if isinstance(rng, ast.Call) and call_fname(rng) == "set" and rng.args and isinstance(rng.args[0], ast.Call) and call_fname(rng.args[0]) == "range":
             ra = rng.args[0].args
             ok_ex = len(ra) == 2 and same(ra[0], ds) and to_poly(ra[1]) == to_poly(de) + Poly.const(1) and same(ex.args[0], D)
-    ctx.rep.check(ok_ex, rule, f"{cbase}/exclusions", "excluded wells = range(dst_start, dst_end+1) minus the destination positions",
-                  f"exclusion set `{show(ex)[:100] if ex is not None else None}` is not range(dst_start, dst_end + 1) minus the destination positions", where=w)
+    why = f"exclusion set `{show(ex)[:100] if ex is not None else None}` is not range(dst_start, dst_end + 1) minus the destination positions"
+    if not ok_ex and ex is not None and is_sym(ex, "comp") and len(ex.args) == 3 and is_sym(ex.args[2], "gen"):
+        elt_, conds = ex.args[1], list(ex.args[2].args[1:])
+        src_ = ex.args[2].args[0]
+        atoms_ = []
+        for c_ in conds:
+            atoms_ += c_.values if isinstance(c_, ast.BoolOp) and isinstance(c_.op, ast.And) else [c_]
+        members = []
+        for a_ in atoms_:
+            neg = False
+            while isinstance(a_, ast.UnaryOp) and isinstance(a_.op, ast.Not):
+                a_, neg = a_.operand, not neg
+            if isinstance(a_, ast.Compare) and len(a_.ops) == 1 and isinstance(a_.ops[0], (ast.In, ast.NotIn)):
+                members.append((a_.left, a_.comparators[0], neg != isinstance(a_.ops[0], ast.NotIn)))
+        rng_src = isinstance(src_, ast.Call) and call_fname(src_) == "range" and len(src_.args) == 2 and same(src_.args[0], ds) and to_poly(src_.args[1]) == to_poly(de) + Poly.const(1)
+        if rng_src and len(atoms_) == 1 and len(members) == 1 and members[0][2] and _akey(members[0][0]) == _akey(elt_) and _akey(_peel(_beta(members[0][1]))[0]) == _akey(_peel(D)[0]):
+            ok_ex = True  # {p for p in range(dst_start, dst_end + 1) if p not in <positions>}
+        else:
+            for left, coll, excluded_if_absent in members:
+                if excluded_if_absent and _akey(left) != _akey(elt_) and any(isinstance(x, ast.Name) and x.id == "destination_wells" for x in ast.walk(coll)):
+                    why = (f"a well number is excluded when some well with that number is not selected (`{show(left)[:40]}` is tested against the selected well IDs), "
+                           "not when no selected well has it: wells that share a number (the rows of a trough on the Fluent) exclude a number that was selected")
+    ctx.rep.check(ok_ex, rule, f"{cbase}/exclusions", "excluded wells = range(dst_start, dst_end+1) minus the destination positions", why, where=w)
     # amount removed from the source = volume * number of destination occurrences
     amount = res(mb, "volumes", rem)
     lenD = ast.Call(func=ast.Name(id="len", ctx=ast.Load()), args=[D], keywords=[])
@@ -395,6 +417,44 @@ def pair_distribute(ctx, rule: str) -> None:
             ok_c = same(x.args[0], sw) and (to_poly(n) == Poly.symbol(lenD) or (to_poly(n) == Poly.symbol(lenW) and flatW))
     ctx.rep.check(ok_c, rule, f"{cbase}/composition", "every destination receives the composition of the source column",
                   f"compositions `{show(comp)[:100] if comp is not None else None}` is not [source.get_well_composition(<source well>)] * (number of destinations)", where=f.where(add.call))
+
+
+def _akey(t: ast.AST) -> str:
+    """key() modulo the identity of comprehension variables (numbered in order of first occurrence)"""
+    import re
+
+    names = {}
+    return re.sub(r"comp@\d+:\d+#\d+", lambda m: names.setdefault(m.group(0), f"comp#{len(names)}"), key(t))
+
+
+def _beta(t: ast.AST) -> ast.AST:
+    """{k: v(k) for k in S}[x]  ->  v(x)   (a lookup in a freshly built table is the table's value expression; a missing
+    key raises and is no result at all)"""
+    import copy
+
+    def rebuild(n):
+        if isinstance(n, list):
+            return [rebuild(x) for x in n]
+        if not isinstance(n, ast.AST):
+            return n
+        if isinstance(n, ast.Subscript) and is_sym(n.value, "comp") and len(n.value.args) == 4 and isinstance(n.value.args[0], ast.Constant) and n.value.args[0].value == "DictComp":
+            k_, v_ = n.value.args[1], n.value.args[2]
+            kk = key(k_)
+            x = rebuild(n.slice)
+
+            def subst(m):
+                if isinstance(m, list):
+                    return [subst(y) for y in m]
+                if not isinstance(m, ast.AST):
+                    return m
+                if key(m) == kk:
+                    return x
+                return type(m)(**{f: subst(getattr(m, f, None)) for f in m._fields})
+
+            return subst(rebuild(v_))
+        return type(n)(**{f: rebuild(getattr(n, f, None)) for f in n._fields})
+
+    return rebuild(t)
 
 
 def _peel(t: ast.AST):
